@@ -463,9 +463,13 @@ func (e *Expr) Coq() string {
 	case "badsel":
 		return "(ECall \"\" \"badselector__\" [])"
 	case "tuple":
-		// a value tuple used as a value has no term in the model: rendered as a call no model function answers, so
-		// the model reports out-of-model and only the observations made on the real result (plainness) count
-		return "(ECall \"\" \"tuple__\" " + coqExprList(e.Items) + ")"
+		// a value tuple used as a value: Model/Ast.v ETuple (Eval.v: members left to right, a column member read at once,
+		// ValueOf = the array of the recursively unwrapped members). `(x)` is a parenthesised expression for the
+		// parser, not a tuple of one member.
+		if len(e.Items) == 1 {
+			return e.Items[0].Coq()
+		}
+		return "(ETuple " + coqExprList(e.Items) + ")"
 	case "call":
 		return "(ECall " + coqStr(strings.ToLower(e.Qual)) + " " + coqStr(strings.ToLower(e.Name)) + " " + coqExprList(e.Items) + ")"
 	}
@@ -518,6 +522,9 @@ func (it Item) name() string {
 			return it.E.Path[1] // rendered as qualifier.name: the column's own name
 		}
 		return strings.Join(it.E.Path, ".") // rendered as one back-quoted identifier
+	}
+	if it.E != nil && it.E.K == "call" && strings.EqualFold(it.E.Name, "FUSE") {
+		return "" // FUSE without alias blends the keys of its argument into the row: there is no column of its own
 	}
 	panic("select item without alias must be a column")
 }
